@@ -57,7 +57,7 @@ var c10Rewrites = func() []c10Rewrite {
 
 var c10Allows = []c10Allow{
 	{"base128-leading-0x80", "parseBase128Int", "upstream", `err SyntaxError{"integer is not minimally encoded"}*`, "ACCEPTANCE", "see base128-leading-0x80:guard"},
-	{"base128-leading-0x80", "parseBase128Int", "upstream", `ret ·  WHEN  *; (L1 == 0) ; (P0[R1] == 128) ;*`, "ACCEPTANCE", "see base128-leading-0x80:guard"},
+	{"base128-leading-0x80", "parseBase128Int", "upstream", `ret ·  WHEN  *(L1 == 0) ; (P0[R1] == 128) ;*`, "ACCEPTANCE", "see base128-leading-0x80:guard"},
 	{"time-case-returns", "parseField", "upstream", `ret ·  WHEN  *(L8 == 23)*`, "equivalent", "time.Time case: upstream returns inside each branch (UTCTime / GeneralizedTime), the fork assigns in both branches and returns once; the two parse calls are matched under their conditions"},
 	{"time-case-returns", "parseField", "fork", `ret ·  WHEN  *sw(P0.Type())∈{timeType}*`, "equivalent", "same"},
 	{"nil-target", "UnmarshalWithParams", "upstream", `err invalidUnmarshalError{*`, "api-misuse", "see nil-target:guard"},
@@ -70,7 +70,7 @@ var c10Allows = []c10Allow{
 	{"oid-string", "(ObjectIdentifier).String", "upstream", `call *.WriteByte(46)*`, "equivalent", "strings.Builder formatting (go1.13) vs string concatenation; same text"},
 	{"oid-string", "(ObjectIdentifier).String", "upstream", `call *.Write(strconv.AppendInt(*`, "equivalent", "same"},
 	{"oid-string", "(ObjectIdentifier).String", "upstream", `ret *.String()*`, "equivalent", "same"},
-	{"oid-string", "(ObjectIdentifier).String", "fork", `ret L1  WHEN  `, "equivalent", "same"},
+	{"oid-string", "(ObjectIdentifier).String", "fork", `ret ·  WHEN  `, "equivalent", "same"},
 	{"four-digits", "appendFourDigits", "upstream", `ret append(P0, byte(*`, "equivalent", "unrolled digit formatting (go1.20) vs loop; marshal only"},
 	{"four-digits", "appendFourDigits", "fork", `ret append(P0, L1[:])*`, "equivalent", "same"},
 }
@@ -105,6 +105,12 @@ func c10R3(r *Run, li *c10LaxInfo) {
 	}
 	for _, k := range res.Derived {
 		r.Pass("signature:"+k, "-", "the fork's parameter list of "+k+" is upstream's without the parameter(s) that every upstream call derives from another argument by a reflect.Type method (read as that derivation inside upstream's function), plus added parameters")
+	}
+	for _, k := range res.Lifted {
+		r.Pass("signature:"+k, "-", "the fork's parameter list of "+k+" is upstream's with a parameter replaced by the value of a pure niladic method (time.Time / reflect.Type) of it, which every fork call applies to an argument of upstream's type (read as that method applied inside the function), plus added parameters")
+	}
+	for _, k := range res.Transparent {
+		r.Pass("transparent:"+k, "-", "unexported one-expression function on one side only, never used as a value: read as its expression at each call")
 	}
 	for _, side := range []string{"fork", "upstream"} {
 		list := res.FuncsOnlyFork
@@ -327,11 +333,11 @@ var c10ItemRewrites = []c10Rewrite{
 }
 
 var c10ItemAllows = []c10ItemAllow{
-	{"base128-leading-0x80", "parseBase128Int", "upstream", `cond ((0 == L1) && (128 == P0[R1]))`, 1, "ACCEPTANCE", "condition of the minimality check the fork lacks (see drift:base128-leading-0x80:guard)"},
+	{"base128-leading-0x80", "parseBase128Int", "upstream", `cond ((0 == L1) ∧ (128 == P0[R1]))`, 1, "ACCEPTANCE", "condition of the minimality check the fork lacks (see drift:base128-leading-0x80:guard)"},
 	{"nil-target", "UnmarshalWithParams", "upstream", `cond (22 != reflect.ValueOf(P1).Kind())`, 1, "api-misuse", "condition of upstream's invalidUnmarshalError (see drift:nil-target:guard; one item per disjunct of a leaving `if a || b`)"},
 	{"nil-target", "UnmarshalWithParams", "upstream", `cond reflect.ValueOf(P1).IsNil()`, 1, "api-misuse", "same, second disjunct"},
 	{"set-of-sorting", "makeBody", "upstream", `cond P1.set`, 1, "marshal", "upstream chooses the sorting setEncoder for SET OF (see drift:set-of-sorting:guard)"},
-	{"set-type-name", "makeField", "upstream", `cond ((17 == L1) && !(P1.set))`, 1, "marshal", "upstream (go1.15) turns on params.set for slice types named …SET so that they are sorted on marshal; the fork has no sorting, so nothing to turn on"},
+	{"set-type-name", "makeField", "upstream", `cond (!(P1.set) ∧ (17 == L1))`, 1, "marshal", "upstream (go1.15) turns on params.set for slice types named …SET so that they are sorted on marshal; the fork has no sorting, so nothing to turn on"},
 	{"set-type-name", "makeField", "upstream", `asgn P1.set = true`, 1, "marshal", "same"},
 	{"tag-parts-loop", "parseFieldParameters", "upstream", `asgn L1, P0, _ = strings.Cut(P0, ",")`, 1, "equivalent", "upstream advances through the tag string with strings.Cut, the fork ranges over strings.Split"},
 	{"lax-tag", "parseFieldParameters", "fork", `cond ("lax" == L1)`, 1, "documented", "the fork's \"lax\" tag part (C10.R1:tag-lax checks what it does)"},
@@ -340,8 +346,8 @@ var c10ItemAllows = []c10ItemAllow{
 	{"error-text", "(StructuralError).Error", "fork", `asgn L1 = (RCV.Field + ": ")`, 1, "diagnostic", "same"},
 	{"error-text", "(SyntaxError).Error", "fork", `cond ("" != RCV.Field)`, 1, "diagnostic", "same"},
 	{"error-text", "(SyntaxError).Error", "fork", `asgn L1 = (RCV.Field + ": ")`, 1, "diagnostic", "same"},
-	{"oid-string", "(ObjectIdentifier).String", "fork", `asgn L1 = (L1 + ".")`, 1, "equivalent", "string concatenation where upstream uses strings.Builder (its WriteByte/Write calls are allowed as sites)"},
-	{"oid-string", "(ObjectIdentifier).String", "fork", `asgn L1 = (L1 + strconv.Itoa(L2))`, 1, "equivalent", "same"},
+	{"oid-string", "(ObjectIdentifier).String", "fork", `asgn R0 = (R0 + ".")`, 1, "equivalent", "string concatenation where upstream uses strings.Builder (its WriteByte/Write calls are allowed as sites)"},
+	{"oid-string", "(ObjectIdentifier).String", "fork", `asgn R0 = (R0 + strconv.Itoa(L1))`, 1, "equivalent", "same"},
 	{"four-digits", "appendFourDigits", "fork", `cond range(L1)`, 1, "equivalent", "digit loop where upstream is unrolled (go1.20); marshal only"},
 	{"four-digits", "appendFourDigits", "fork", `asgn L1[(3 - L2)] = (48 + byte((P1 % 10)))`, 1, "equivalent", "same"},
 	{"four-digits", "appendFourDigits", "fork", `asgn P1 = (P1 / 10)`, 1, "equivalent", "same"},
